@@ -58,6 +58,11 @@ pub struct Str { s: String }     // R1: String, &str, &String share one view
 pub open spec fn occurs_at(pat: Seq<char>, s: Seq<char>, k: int) -> bool { 0 <= k && k + pat.len() <= s.len() && s.subrange(k, k + pat.len()) == pat }
 impl Str {
     pub uninterp spec fn view(&self) -> Seq<char>;
+    // StringExt::trim_suffix (rivia): removes exactly one trailing occurrence or nothing (proved on the real body in unit core_string)
+    #[verifier::external_body]
+    pub fn trim_suffix<P: StrPat>(&self, t: P) -> (r: Str)
+        ensures is_suffix(t.pat(), self@) ==> r@ == self@.take(self@.len() - t.pat().len()), !is_suffix(t.pat(), self@) ==> r@ == self@
+    { unimplemented!() }
     #[verifier::external_body]
     pub fn new() -> (r: Str) ensures r@ == Seq::<char>::empty() { unimplemented!() }
     #[verifier::external_body]
